@@ -77,6 +77,10 @@ func parseUrlPath(pathStr string, m meta.Definition) ([]*Path, error) {
 		if seg.Meta == nil {
 			return nil, fmt.Errorf("%w. %s not found in %s", fc.NotFoundError, ident, p.Meta.Ident())
 		}
+		if _, isChoice := seg.Meta.(*meta.Choice); isChoice {
+			// a choice is not a node of the data tree, what its cases hold is reached by name
+			return nil, fmt.Errorf("%w. %s not found in %s", fc.NotFoundError, ident, p.Meta.Ident())
+		}
 		if len(keyStrs) > 0 {
 			list, isList := seg.Meta.(*meta.List)
 			if !isList {
